@@ -19,7 +19,7 @@ import (
 
 // C07: TLC-generated schedules replayed with blocking gates.
 //
-// A vector names N requests (kinds R1..R6) and a schedule: the sequence of request indices
+// A vector names N requests (kinds R1..R9) and a schedule: the sequence of request indices
 // that are allowed to pass their next gate.  The N requests run on N goroutines against ONE
 // cold schema, ONE prepared plan and ONE plan cache.  The `verif` hook blocks a goroutine at
 // every lock-free instrumentation point (lazy enum tables, possible-type tables, entry of
@@ -258,6 +258,12 @@ func c07Run(sh *c07Shared, kind string, variant int) string {
 			}
 		}()
 		return out
+	case "R8": // introspection of the abstract types (reads the possible-type lists, sorted for the answer)
+		return render(runDo(b, `{ __type(name: "UO") { possibleTypes { name } } i: __type(name: "I") { possibleTypes { name } } it: __type(name: "IT") { possibleTypes { name } } }`, "", nil, rc))
+	case "R9": // abstract values resolved by walking the possible types' IsTypeOf (no ResolveType)
+		rc9 := &abs.RunCtx{Built: b, Root: rootObject, RootTag: "r", Outs: []abs.OutEntry{
+			{T: "Q", F: "uo", Src: "*", O: abs.Outcome{K: "val", Rt: "*"}}}}
+		return render(runDo(b, `{ uo { __typename } itl { __typename x } it { x } }`, "", nil, rc9))
 	case "R5": // cache reset racing with Gets
 		sh.cache.Reset()
 		return "reset"
